@@ -1,3 +1,1109 @@
+/-
+Helper lemmas for C15 (model: Models/Mpf.lean).  Only single Mathlib tactic modules are imported.
+-/
 import FAVerif.Models.Mpf
+import Mathlib.Tactic.Linarith
+import Mathlib.Tactic.Ring
+
 namespace FAVerif.Mpf
+open FAVerif.FP
+
+/-! ## integers: bit length, trailing zeros -/
+
+theorem two_pow_pos' (n : Nat) : 0 < 2 ^ n := Nat.two_pow_pos n
+
+theorem bitlen_zero : bitlen 0 = 0 := by simp [bitlen]
+
+theorem bitlen_bounds {m : Nat} (h : m ≠ 0) : 2 ^ (bitlen m - 1) ≤ m ∧ m < 2 ^ bitlen m ∧ 1 ≤ bitlen m := by
+  unfold bitlen
+  simp only [h, if_false]
+  refine ⟨?_, Nat.lt_log2_self, by omega⟩
+  simpa using Nat.log2_self_le h
+
+theorem bitlen_eq_of {m k : Nat} (h1 : 2 ^ k ≤ m) (h2 : m < 2 ^ (k + 1)) : bitlen m = k + 1 := by
+  have hm : m ≠ 0 := by have := two_pow_pos' k; omega
+  unfold bitlen
+  simp only [hm, if_false]
+  have a : m.log2 < k + 1 := (Nat.log2_lt hm).2 h2
+  have b : ¬ m.log2 < k := by
+    intro hlt
+    have := (Nat.log2_lt hm).1 hlt
+    omega
+  omega
+
+theorem bitlen_le_of_lt {m k : Nat} (h : m < 2 ^ k) : bitlen m ≤ k := by
+  by_cases hm : m = 0
+  · simp [hm, bitlen_zero]
+  · unfold bitlen
+    simp only [hm, if_false]
+    have := (Nat.log2_lt hm).2 h
+    omega
+
+theorem lt_of_bitlen_le {m k : Nat} (h : bitlen m ≤ k) : m < 2 ^ k := by
+  by_cases hm : m = 0
+  · subst hm; exact two_pow_pos' k
+  · have := (bitlen_bounds hm).2.1
+    exact Nat.lt_of_lt_of_le this (Nat.pow_le_pow_right (by omega) h)
+
+theorem bitlen_mul_pow {m : Nat} (h : m ≠ 0) (t : Nat) : bitlen (m * 2 ^ t) = bitlen m + t := by
+  obtain ⟨h1, h2, h3⟩ := bitlen_bounds h
+  have e : bitlen m + t = (bitlen m - 1 + t) + 1 := by omega
+  rw [e]
+  apply bitlen_eq_of
+  · rw [Nat.pow_add]; exact Nat.mul_le_mul_right _ h1
+  · have : bitlen m - 1 + t + 1 = bitlen m + t := by omega
+    rw [this, Nat.pow_add]
+    exact Nat.mul_lt_mul_of_pos_right h2 (two_pow_pos' t)
+
+theorem bitlen_two_pow (k : Nat) : bitlen (2 ^ k) = k + 1 :=
+  bitlen_eq_of (Nat.le_refl _) (Nat.pow_lt_pow_right (by omega) (by omega))
+
+/-! trailing zeros -/
+theorem tz_spec (n : Nat) (h : n ≠ 0) : n / 2 ^ tz n * 2 ^ tz n = n ∧ (n / 2 ^ tz n) % 2 = 1 := by
+  induction n using Nat.strongRecOn with
+  | _ n ih =>
+    rw [tz]
+    simp only [h, dite_false]
+    by_cases hp : n % 2 = 0
+    · simp only [hp, if_true]
+      have hn2 : n / 2 ≠ 0 := by omega
+      obtain ⟨a, b⟩ := ih (n / 2) (by omega) hn2
+      have e : n / 2 ^ (tz (n / 2) + 1) = n / 2 / 2 ^ tz (n / 2) := by
+        rw [Nat.pow_succ, Nat.mul_comm, Nat.div_div_eq_div_mul]
+      rw [e]
+      refine ⟨?_, b⟩
+      rw [Nat.pow_succ, ← Nat.mul_assoc, a]; omega
+    · simp only [hp, if_false]
+      simp
+      omega
+
+/-! ## nearest-even division -/
+
+/-- characterisation of a nearest-even quotient `q` of `m / D` -/
+def IsRNE (m D q : Nat) : Prop :=
+  2 * (q * D) ≤ 2 * m + D ∧ 2 * m ≤ 2 * (q * D) + D ∧
+  (2 * m = 2 * (q * D) + D → q % 2 = 0) ∧ (2 * m + D = 2 * (q * D) → q % 2 = 0)
+
+theorem rneDiv_spec (m n : Nat) : IsRNE m (2 ^ n) (rneDiv m n) := by
+  have hD : 0 < 2 ^ n := Nat.two_pow_pos n
+  generalize hDd : 2 ^ n = D at *
+  have hm := Nat.div_add_mod m D
+  have hr := Nat.mod_lt m hD
+  unfold rneDiv IsRNE
+  simp only [hDd]
+  generalize hq : m / D = q at *
+  generalize hrr : m % D = r at *
+  have e1 : (q + 1) * D = q * D + D := by ring
+  have e2 : D * q = q * D := by ring
+  split
+  · rename_i h
+    rw [e1]
+    rcases h with h | ⟨h, ho⟩
+    · refine ⟨by omega, by omega, by omega, by omega⟩
+    · refine ⟨by omega, by omega, by omega, ?_⟩
+      intro _; omega
+  · rename_i h
+    have h' : ¬ (D < 2 * r) ∧ ¬ (2 * r = D ∧ q % 2 = 1) := by
+      constructor
+      · intro a; exact h (Or.inl a)
+      · intro a; exact h (Or.inr a)
+    refine ⟨by omega, by omega, ?_, by omega⟩
+    intro a
+    have : 2 * r = D := by omega
+    have := h'.2
+    omega
+
+theorem isRNE_unique {m D q q' : Nat} (hD : 0 < D) (h : IsRNE m D q) (h' : IsRNE m D q') : q = q' := by
+  unfold IsRNE at h h'
+  rcases Nat.lt_trichotomy q q' with lt | eq | gt
+  · exfalso
+    have : (q + 1) * D ≤ q' * D := Nat.mul_le_mul_right D lt
+    have e1 : (q + 1) * D = q * D + D := by ring
+    rw [e1] at this
+    obtain ⟨a1, a2, a3, a4⟩ := h
+    obtain ⟨b1, b2, b3, b4⟩ := h'
+    have hq : q' * D = q * D + D := by omega
+    have t1 := a3 (by omega)
+    have t2 := b4 (by omega)
+    have : q' = q + 1 := by
+      have : q' * D = (q + 1) * D := by rw [e1]; exact hq
+      exact Nat.eq_of_mul_eq_mul_right hD this
+    omega
+  · exact eq
+  · exfalso
+    have : (q' + 1) * D ≤ q * D := Nat.mul_le_mul_right D gt
+    have e1 : (q' + 1) * D = q' * D + D := by ring
+    rw [e1] at this
+    obtain ⟨a1, a2, a3, a4⟩ := h
+    obtain ⟨b1, b2, b3, b4⟩ := h'
+    have hq : q * D = q' * D + D := by omega
+    have t1 := b3 (by omega)
+    have t2 := a4 (by omega)
+    have : q = q' + 1 := by
+      have : q * D = (q' + 1) * D := by rw [e1]; exact hq
+      exact Nat.eq_of_mul_eq_mul_right hD this
+    omega
+
+theorem rneDiv_eq_of {m n q : Nat} (h : IsRNE m (2 ^ n) q) : rneDiv m n = q :=
+  isRNE_unique (Nat.two_pow_pos n) (rneDiv_spec m n) h
+
+theorem rneDiv_zero (m : Nat) : rneDiv m 0 = m := by
+  apply rneDiv_eq_of
+  unfold IsRNE
+  simp only [Nat.pow_zero, Nat.mul_one]
+  refine ⟨by omega, by omega, by omega, by omega⟩
+
+theorem rneDiv_mul (a n : Nat) : rneDiv (a * 2 ^ n) n = a := by
+  apply rneDiv_eq_of
+  have := Nat.two_pow_pos n
+  unfold IsRNE
+  refine ⟨by omega, by omega, by omega, by omega⟩
+
+theorem rneDiv_scale (m n k : Nat) : rneDiv (m * 2 ^ k) (n + k) = rneDiv m n := by
+  apply rneDiv_eq_of
+  have h := rneDiv_spec m n
+  have hk := Nat.two_pow_pos k
+  generalize rneDiv m n = q at *
+  unfold IsRNE at *
+  rw [Nat.pow_add]
+  generalize 2 ^ n = D at *
+  generalize 2 ^ k = K at *
+  obtain ⟨a1, a2, a3, a4⟩ := h
+  have e1 : 2 * (q * (D * K)) = (2 * (q * D)) * K := by ring
+  have e2 : 2 * (m * K) + D * K = (2 * m + D) * K := by ring
+  have e3 : 2 * (m * K) = (2 * m) * K := by ring
+  have e4 : 2 * (q * (D * K)) + D * K = (2 * (q * D) + D) * K := by ring
+  refine ⟨?_, ?_, ?_, ?_⟩
+  · rw [e1, e2]; exact Nat.mul_le_mul_right K a1
+  · rw [e3, e4]; exact Nat.mul_le_mul_right K a2
+  · rw [e3, e4]; intro h; exact a3 (Nat.eq_of_mul_eq_mul_right hk h)
+  · rw [e1, e2]; intro h; exact a4 (Nat.eq_of_mul_eq_mul_right hk h)
+
+theorem rneDiv_mono {m m' : Nat} (n : Nat) (h : m ≤ m') : rneDiv m n ≤ rneDiv m' n := by
+  have s := rneDiv_spec m n
+  have s' := rneDiv_spec m' n
+  have hD := Nat.two_pow_pos n
+  generalize rneDiv m n = q at *
+  generalize rneDiv m' n = q' at *
+  generalize 2 ^ n = D at *
+  by_contra hlt
+  have hlt : q' + 1 ≤ q := by omega
+  have : (q' + 1) * D ≤ q * D := Nat.mul_le_mul_right D hlt
+  have e1 : (q' + 1) * D = q' * D + D := by ring
+  rw [e1] at this
+  unfold IsRNE at s s'
+  obtain ⟨a1, a2, a3, a4⟩ := s
+  obtain ⟨b1, b2, b3, b4⟩ := s'
+  have hq : q * D = q' * D + D := by omega
+  have t1 := b3 (by omega)
+  have t2 := a4 (by omega)
+  have : q = q' + 1 := by
+    have : q * D = (q' + 1) * D := by rw [e1]; exact hq
+    exact Nat.eq_of_mul_eq_mul_right hD this
+  omega
+
+/-- bounds: `2^(k+n) ≤ m → 2^k ≤ rneDiv m n`, `m ≤ 2^(k+n) → rneDiv m n ≤ 2^k` -/
+theorem rneDiv_ge_pow {m n k : Nat} (h : 2 ^ (k + n) ≤ m) : 2 ^ k ≤ rneDiv m n := by
+  have := rneDiv_mono n h
+  rwa [Nat.pow_add, rneDiv_mul] at this
+
+theorem rneDiv_le_pow {m n k : Nat} (h : m ≤ 2 ^ (k + n)) : rneDiv m n ≤ 2 ^ k := by
+  have := rneDiv_mono n h
+  rwa [Nat.pow_add, rneDiv_mul] at this
+
+/-- the half-way point above an odd quotient rounds up: threshold lemma. -/
+theorem rneDiv_ge_succ_odd {m n a : Nat} (hn : 1 ≤ n) (ha : a % 2 = 1) :
+    a + 1 ≤ rneDiv m n ↔ a * 2 ^ n + 2 ^ (n - 1) ≤ m := by
+  have s := rneDiv_spec m n
+  have hD := Nat.two_pow_pos (n - 1)
+  have hDD : 2 ^ n = 2 * 2 ^ (n - 1) := by
+    have : n = (n - 1) + 1 := by omega
+    rw [this, Nat.pow_succ]; simp; ring
+  generalize rneDiv m n = q at *
+  rw [hDD] at s ⊢
+  generalize 2 ^ (n - 1) = H at *
+  unfold IsRNE at s
+  obtain ⟨a1, a2, a3, a4⟩ := s
+  constructor
+  · intro h
+    have : (a + 1) * (2 * H) ≤ q * (2 * H) := Nat.mul_le_mul_right _ h
+    have e : (a + 1) * (2 * H) = a * (2 * H) + 2 * H := by ring
+    omega
+  · intro h
+    by_contra hlt
+    have hlt : q ≤ a := by omega
+    have : q * (2 * H) ≤ a * (2 * H) := Nat.mul_le_mul_right _ hlt
+    have hq : q * (2 * H) = a * (2 * H) := by omega
+    have : q = a := Nat.eq_of_mul_eq_mul_right (by omega) hq
+    have := a3 (by omega)
+    omega
+
+/-! ## formats -/
+
+structure Valid (f : Fmt) : Prop where
+  p2 : 2 ≤ f.p
+  p53 : f.p ≤ 53
+  ew2 : 2 ≤ f.ew
+  pe : f.p ≤ 2 ^ (f.ew - 1)
+
+theorem fmt_facts {f : Fmt} (v : Valid f) :
+    ∃ B : Nat, B = 2 ^ (f.ew - 1) ∧ (f.p : Int) ≤ B ∧ 2 ≤ B ∧ f.emin = 3 - (B : Int) - f.p ∧ f.emaxUlp = (B : Int) - f.p
+      ∧ f.expMax = 2 * B - 1 := by
+  refine ⟨2 ^ (f.ew - 1), rfl, ?_, ?_, ?_, ?_, ?_⟩
+  · exact_mod_cast v.pe
+  · have : 2 ^ 1 ≤ 2 ^ (f.ew - 1) := Nat.pow_le_pow_right (by omega) (by have := v.ew2; omega)
+    simpa using this
+  · unfold Fmt.emin Fmt.bias
+    have := v.p2
+    have hp : ((f.p - 1 : Nat) : Int) = (f.p : Int) - 1 := by omega
+    have hi : (2 : Int) ^ (f.ew - 1) = ((2 ^ (f.ew - 1) : Nat) : Int) := by norm_cast
+    rw [hp, hi]
+    omega
+  · have hB : 2 ^ f.ew = 2 * 2 ^ (f.ew - 1) := by
+      have : f.ew = (f.ew - 1) + 1 := by have := v.ew2; omega
+      conv_lhs => rw [this, Nat.pow_succ]
+      ring
+    have h2 : 2 ≤ 2 ^ (f.ew - 1) := by
+      have : 2 ^ 1 ≤ 2 ^ (f.ew - 1) := Nat.pow_le_pow_right (by omega) (by have := v.ew2; omega)
+      simpa using this
+    unfold Fmt.emaxUlp Fmt.expMax Fmt.emin Fmt.bias
+    rw [hB]
+    have := v.p2
+    have hp : ((f.p - 1 : Nat) : Int) = (f.p : Int) - 1 := by omega
+    have hc : ((2 * 2 ^ (f.ew - 1) - 1 - 2 : Nat) : Int) = 2 * ((2 ^ (f.ew - 1) : Nat) : Int) - 3 := by omega
+    have hi : (2 : Int) ^ (f.ew - 1) = ((2 ^ (f.ew - 1) : Nat) : Int) := by norm_cast
+    rw [hp, hc, hi]
+    omega
+  · have hB : 2 ^ f.ew = 2 * 2 ^ (f.ew - 1) := by
+      have : f.ew = (f.ew - 1) + 1 := by have := v.ew2; omega
+      conv_lhs => rw [this, Nat.pow_succ]
+      ring
+    unfold Fmt.expMax
+    rw [hB]
+
+/-! ## normalize, scale invariance, short significands -/
+
+/-- the p-bit nearest-even significand of `man` -/
+def q1 (p man : Nat) : Nat := rneDiv man (bitlen man - p)
+
+/-- exponent just above the p-bit rounding of `man·2^exp`: `RNE_p(x) ∈ [2^(top-1), 2^top)` -/
+def top (p man : Nat) (exp : Int) : Int := exp + ((bitlen man - p : Nat) : Int) + (bitlen (q1 p man) : Nat)
+
+theorem q1_short {p man : Nat} (h : bitlen man ≤ p) : q1 p man = man := by
+  unfold q1
+  have : bitlen man - p = 0 := by omega
+  rw [this, rneDiv_zero]
+
+theorem q1_long {p man : Nat} (hp : 1 ≤ p) (h : p < bitlen man) : 2 ^ (p - 1) ≤ q1 p man ∧ q1 p man ≤ 2 ^ p := by
+  have hm : man ≠ 0 := by intro h0; subst h0; simp [bitlen_zero] at h
+  obtain ⟨b1, b2, b3⟩ := bitlen_bounds hm
+  unfold q1
+  constructor
+  · apply rneDiv_ge_pow
+    have : p - 1 + (bitlen man - p) = bitlen man - 1 := by omega
+    rw [this]; exact b1
+  · apply rneDiv_le_pow
+    have : p + (bitlen man - p) = bitlen man := by omega
+    rw [this]; omega
+
+theorem q1_ne_zero {p man : Nat} (hp : 1 ≤ p) (hm : man ≠ 0) : q1 p man ≠ 0 := by
+  by_cases h : bitlen man ≤ p
+  · rw [q1_short h]; exact hm
+  · have := (q1_long (man := man) hp (by omega)).1
+    have := Nat.two_pow_pos (p - 1)
+    omega
+
+theorem normalize_n (s : Bool) {man : Nat} (exp : Int) {prec : Nat} (hm : man ≠ 0) (hp : 1 ≤ prec) :
+    ∃ t : Nat, (normalize s man exp prec .n).sign = s ∧
+      (normalize s man exp prec .n).man * 2 ^ t = q1 prec man ∧
+      (normalize s man exp prec .n).exp = exp + ((bitlen man - prec : Nat) : Int) + (t : Int) ∧
+      (normalize s man exp prec .n).bc = bitlen (normalize s man exp prec .n).man ∧
+      (normalize s man exp prec .n).man % 2 = 1 := by
+  have hq := q1_ne_zero hp hm
+  have e : (if bitlen man - prec = 0 then man else shiftRnd Rnd.n s man (bitlen man - prec)) = q1 prec man := by
+    unfold q1
+    split
+    · rename_i h; rw [h, rneDiv_zero]
+    · rfl
+  unfold normalize
+  simp only [hm, if_false, e, hq]
+  obtain ⟨a, b⟩ := tz_spec (q1 prec man) hq
+  refine ⟨tz (q1 prec man), ?_, ?_, ?_, ?_, ?_⟩ <;> trivial
+
+theorem shiftLoop_le {l m : Nat} (e : Int) (h : m ≤ l) : shiftLoop l m e = (m, e) := by
+  rw [shiftLoop]
+  have : ¬ l < m := by omega
+  simp [this]
+
+/-! scale invariance -/
+theorem rne_scale (m t : Nat) (e g : Int) : rne (m * 2 ^ t) e g = rne m (e + t) g := by
+  unfold rne
+  by_cases h1 : g ≤ e
+  · have h2 : g ≤ e + t := by omega
+    simp only [h1, h2, if_true]
+    have : (e + t - g).toNat = t + (e - g).toNat := by omega
+    rw [this, Nat.pow_add]; ring
+  · simp only [h1, if_false]
+    by_cases h2 : g ≤ e + t
+    · simp only [h2, if_true]
+      have hd : t = (e + t - g).toNat + (g - e).toNat := by omega
+      have : m * 2 ^ t = (m * 2 ^ (e + t - g).toNat) * 2 ^ (g - e).toNat := by
+        conv_lhs => rw [hd, Nat.pow_add]
+        ring
+      rw [this, rneDiv_mul]
+    · simp only [h2, if_false]
+      have : (g - e).toNat = (g - (e + t)).toNat + t := by omega
+      rw [this, rneDiv_scale]
+
+theorem roundV_scale (f : Fmt) {m : Nat} (hm : m ≠ 0) (t : Nat) (e : Int) :
+    roundV f (m * 2 ^ t) e = roundV f m (e + t) := by
+  have h2 : m * 2 ^ t ≠ 0 := by
+    have := Nat.two_pow_pos t
+    exact Nat.mul_ne_zero hm (by omega)
+  unfold roundV
+  simp only [hm, h2, if_false]
+  rw [bitlen_mul_pow hm, rne_scale]
+  have : ((bitlen m + t : Nat) : Int) + e - f.p = (bitlen m : Int) + (e + t) - f.p := by push_cast; ring
+  rw [this]
+
+/-- a significand of at most `p` bits never carries -/
+theorem rne_short_lt {p m : Nat} (hp : 1 ≤ p) (hm : m ≠ 0) (hs : bitlen m ≤ p) (e0 e : Int)
+    (he : (bitlen m : Int) + e0 - p ≤ e) : rne m e0 e < 2 ^ p := by
+  have hlt := lt_of_bitlen_le hs
+  unfold rne
+  split
+  · rename_i h
+    have h1 : (e0 - e).toNat ≤ p - bitlen m := by omega
+    have := (bitlen_bounds hm).2.1
+    calc m * 2 ^ (e0 - e).toNat < 2 ^ bitlen m * 2 ^ (e0 - e).toNat :=
+          Nat.mul_lt_mul_of_pos_right this (Nat.two_pow_pos _)
+      _ = 2 ^ (bitlen m + (e0 - e).toNat) := by rw [Nat.pow_add]
+      _ ≤ 2 ^ p := Nat.pow_le_pow_right (by omega) (by omega)
+  · rename_i h
+    have hd : 1 ≤ (e - e0).toNat := by omega
+    have : rneDiv m (e - e0).toNat ≤ 2 ^ (p - 1) := by
+      apply rneDiv_le_pow
+      have : 2 ^ p ≤ 2 ^ (p - 1 + (e - e0).toNat) := Nat.pow_le_pow_right (by omega) (by omega)
+      omega
+    have : 2 ^ (p - 1) < 2 ^ p := Nat.pow_lt_pow_right (by omega) (by omega)
+    omega
+
+theorem roundV_short (f : Fmt) (hp : 1 ≤ f.p) {m : Nat} (hm : m ≠ 0) (hs : bitlen m ≤ f.p) (e0 : Int) :
+    roundV f m e0 =
+      if f.emaxUlp < max ((bitlen m : Int) + e0 - f.p) f.emin then .inf
+      else .fin (rne m e0 (max ((bitlen m : Int) + e0 - f.p) f.emin)) (max ((bitlen m : Int) + e0 - f.p) f.emin) := by
+  have := rne_short_lt hp hm hs e0 (max ((bitlen m : Int) + e0 - f.p) f.emin) (by omega)
+  unfold roundV
+  simp only [hm, if_false]
+  have hne : rne m e0 (max ((bitlen m : Int) + e0 - f.p) f.emin) ≠ 2 ^ f.p := by omega
+  simp only [hne, if_false]
+
+/-! ## mpf2float = two-step rounding -/
+
+theorem norm_facts (s : Bool) {man : Nat} (exp : Int) {p : Nat} (hm : man ≠ 0) (hp : 1 ≤ p) :
+    (normalize s man exp p .n).sign = s ∧ (normalize s man exp p .n).man ≠ 0 ∧
+    bitlen (normalize s man exp p .n).man ≤ p ∧
+    (normalize s man exp p .n).bc = bitlen (normalize s man exp p .n).man ∧
+    (normalize s man exp p .n).exp + ((normalize s man exp p .n).bc : Int) = top p man exp ∧
+    (∀ f : Fmt, roundV f (normalize s man exp p .n).man (normalize s man exp p .n).exp
+        = roundV f (q1 p man) (exp + ((bitlen man - p : Nat) : Int))) := by
+  obtain ⟨t, h1, h2, h3, h4, h5⟩ := normalize_n s exp hm hp
+  generalize normalize s man exp p .n = r at *
+  have hq := q1_ne_zero hp hm
+  have hr : r.man ≠ 0 := by intro h0; rw [h0] at h5; omega
+  have hb : bitlen (q1 p man) = bitlen r.man + t := by rw [← h2, bitlen_mul_pow hr]
+  refine ⟨h1, hr, ?_, h4, ?_, ?_⟩
+  · by_cases hs : bitlen man ≤ p
+    · rw [q1_short hs] at hb; omega
+    · obtain ⟨l1, l2⟩ := q1_long (man := man) hp (by omega)
+      rcases Nat.lt_or_ge (q1 p man) (2 ^ p) with lt | ge
+      · have := bitlen_le_of_lt lt; omega
+      · have e : q1 p man = 2 ^ p := by omega
+        have hb2 : bitlen (q1 p man) = p + 1 := by rw [e, bitlen_two_pow]
+        have ht : t ≠ 0 := by
+          intro h0
+          rw [h0] at h2
+          simp only [Nat.pow_zero, Nat.mul_one] at h2
+          rw [h2, e] at h5
+          have : p = (p - 1) + 1 := by omega
+          rw [this, Nat.pow_succ] at h5
+          omega
+        omega
+  · unfold top
+    rw [h3, h4, hb]; push_cast; ring
+  · intro f
+    rw [← h2, roundV_scale f hr, h3]
+
+theorem largest_ge {f : Fmt} : 2 ^ f.p - 1 ≤ largest f := by
+  unfold largest
+  have := Nat.two_pow_pos f.emaxUlp.toNat
+  exact Nat.le_mul_of_pos_right _ this
+
+theorem two_step' {f : Fmt} (v : Valid f) (fl : PyVal) (s : Bool) {man : Nat} (hm : man ≠ 0) (exp : Int) :
+    mpf2float f fl (.fin s man exp) none .n =
+      if top f.p man exp < (if fl.truthy then minexp f else subexp f) then .bits (signBits f s)
+      else if maxexp f < top f.p man exp then .bits (signBits f s + f.infBits)
+      else .bits (signBits f s + pack f (roundV f (q1 f.p man) (exp + ((bitlen man - f.p : Nat) : Int)))) := by
+  have hp : 1 ≤ f.p := by have := v.p2; omega
+  obtain ⟨h1, h2, h3, h4, h5, h6⟩ := norm_facts s exp hm hp
+  obtain ⟨B, hB, b1, b2, b3, b4, b5⟩ := fmt_facts v
+  unfold mpf2float
+  simp only [Option.getD_none]
+  rw [← h6 f, ← h5]
+  generalize normalize s man exp f.p .n = r at *
+  rw [h1]
+  generalize (if fl.truthy = true then minexp f else subexp f) = z
+  by_cases hz : r.exp + (r.bc : Int) < z
+  · simp only [hz, if_true]
+  · by_cases ho : maxexp f < r.exp + (r.bc : Int)
+    · simp only [hz, ho, if_true, if_false]
+    · simp only [hz, ho, if_false]
+      have hlt := lt_of_bitlen_le h3
+      have hle : r.man ≤ largest f := by have := @largest_ge f; omega
+      rw [shiftLoop_le _ hle]
+      have hc : convInt f r.man = some (.fin r.man 0) := by
+        unfold convInt
+        have : bitlen r.man ≤ 53 := by have := v.p53; omega
+        simp only [h3, this, hle, and_self, if_true]
+      simp only [hc, ldexpV, Int.zero_add]
+      rw [roundV_short f hp h2 h3]
+      have hmax : ¬ f.emaxUlp < max ((bitlen r.man : Int) + r.exp - f.p) f.emin := by
+        unfold maxexp at ho
+        rw [h4] at ho
+        omega
+      simp only [hmax, if_false]
+
+/-! ## when the first rounding is harmless -/
+
+theorem rne_le {man : Nat} {exp e : Int} {j : Nat} (h : (bitlen man : Int) + exp ≤ e + j) : rne man exp e ≤ 2 ^ j := by
+  have hlt : man < 2 ^ bitlen man := lt_of_bitlen_le (Nat.le_refl _)
+  unfold rne
+  split
+  · rename_i h1
+    have : man * 2 ^ (exp - e).toNat < 2 ^ bitlen man * 2 ^ (exp - e).toNat :=
+      Nat.mul_lt_mul_of_pos_right hlt (Nat.two_pow_pos _)
+    rw [← Nat.pow_add] at this
+    have : 2 ^ (bitlen man + (exp - e).toNat) ≤ 2 ^ j := Nat.pow_le_pow_right (by omega) (by omega)
+    omega
+  · rename_i h1
+    apply rneDiv_le_pow
+    have : 2 ^ bitlen man ≤ 2 ^ (j + (e - exp).toNat) := Nat.pow_le_pow_right (by omega) (by omega)
+    omega
+
+theorem rne_ge {man : Nat} (hm : man ≠ 0) {exp e : Int} {j : Nat} (h : e + j + 1 ≤ (bitlen man : Int) + exp) :
+    2 ^ j ≤ rne man exp e := by
+  obtain ⟨b1, b2, b3⟩ := bitlen_bounds hm
+  unfold rne
+  split
+  · rename_i h1
+    have : 2 ^ (bitlen man - 1) * 2 ^ (exp - e).toNat ≤ man * 2 ^ (exp - e).toNat := Nat.mul_le_mul_right _ b1
+    rw [← Nat.pow_add] at this
+    have : 2 ^ j ≤ 2 ^ (bitlen man - 1 + (exp - e).toNat) := Nat.pow_le_pow_right (by omega) (by omega)
+    omega
+  · rename_i h1
+    apply rneDiv_ge_pow
+    have : 2 ^ (j + (e - exp).toNat) ≤ 2 ^ (bitlen man - 1) := Nat.pow_le_pow_right (by omega) (by omega)
+    omega
+
+theorem top_short {p man : Nat} (exp : Int) (h : bitlen man ≤ p) : top p man exp = bitlen man + exp := by
+  unfold top
+  rw [q1_short h]
+  have : bitlen man - p = 0 := by omega
+  rw [this]; simp; ring
+
+theorem top_long {p man : Nat} (hp : 1 ≤ p) (exp : Int) (h : p < bitlen man) :
+    (q1 p man < 2 ^ p → top p man exp = bitlen man + exp) ∧ (q1 p man = 2 ^ p → top p man exp = bitlen man + exp + 1) := by
+  obtain ⟨l1, l2⟩ := q1_long hp h
+  unfold top
+  constructor
+  · intro hlt
+    have : bitlen (q1 p man) = (p - 1) + 1 := bitlen_eq_of l1 (by rwa [show p - 1 + 1 = p by omega])
+    rw [this]; push_cast; omega
+  · intro he
+    rw [he, bitlen_two_pow]; push_cast; omega
+
+theorem top_bounds {p man : Nat} (hp : 1 ≤ p) (exp : Int) :
+    (bitlen man : Int) + exp ≤ top p man exp ∧ top p man exp ≤ bitlen man + exp + 1 := by
+  by_cases h : bitlen man ≤ p
+  · rw [top_short exp h]; omega
+  · obtain ⟨a, b⟩ := top_long hp exp (show p < bitlen man by omega)
+    obtain ⟨l1, l2⟩ := q1_long (man := man) hp (by omega)
+    rcases Nat.lt_or_ge (q1 p man) (2 ^ p) with lt | ge
+    · rw [a lt]; omega
+    · rw [b (by omega)]; omega
+
+/-- rounding to `p` bits first is harmless whenever the format's quantum at `x` is the p-bit quantum
+(`x ≥` smallest normal) or `x` already has at most `p` bits. -/
+theorem round_two_step_eq {f : Fmt} (v : Valid f) {man : Nat} (hm : man ≠ 0) (exp : Int)
+    (h : bitlen man ≤ f.p ∨ f.emin ≤ (bitlen man : Int) + exp - f.p) :
+    roundV f (q1 f.p man) (exp + ((bitlen man - f.p : Nat) : Int)) = roundV f man exp := by
+  have hp : 1 ≤ f.p := by have := v.p2; omega
+  by_cases hs : bitlen man ≤ f.p
+  · rw [q1_short hs]
+    have : bitlen man - f.p = 0 := by omega
+    rw [this]; simp
+  · have h : f.emin ≤ (bitlen man : Int) + exp - f.p := by omega
+    obtain ⟨l1, l2⟩ := q1_long (man := man) hp (by omega)
+    have hq := q1_ne_zero hp hm
+    have hn : ((bitlen man - f.p : Nat) : Int) = (bitlen man : Int) - f.p := by omega
+    have hrne : rne man exp (exp + ((bitlen man - f.p : Nat) : Int)) = q1 f.p man := by
+      unfold rne q1
+      have : ¬ (exp + ((bitlen man - f.p : Nat) : Int) ≤ exp) := by omega
+      simp only [this, if_false]
+      congr 1
+      omega
+    rcases Nat.lt_or_ge (q1 f.p man) (2 ^ f.p) with lt | ge
+    · have hb : bitlen (q1 f.p man) = f.p := by
+        have := bitlen_eq_of l1 (by rwa [show f.p - 1 + 1 = f.p by omega])
+        omega
+      unfold roundV
+      simp only [hm, hq, if_false, hb]
+      have e1 : max ((f.p : Int) + (exp + ((bitlen man - f.p : Nat) : Int)) - f.p) f.emin = exp + ((bitlen man - f.p : Nat) : Int) := by omega
+      have e2 : max ((bitlen man : Int) + exp - f.p) f.emin = exp + ((bitlen man - f.p : Nat) : Int) := by omega
+      rw [e1, e2, hrne]
+      have : rne (q1 f.p man) (exp + ((bitlen man - f.p : Nat) : Int)) (exp + ((bitlen man - f.p : Nat) : Int)) = q1 f.p man := by
+        unfold rne; simp
+      rw [this]
+    · have he : q1 f.p man = 2 ^ f.p := by omega
+      unfold roundV
+      simp only [hm, if_false]
+      have e2 : max ((bitlen man : Int) + exp - f.p) f.emin = exp + ((bitlen man - f.p : Nat) : Int) := by omega
+      rw [e2, hrne, he]
+      have h0 : (2 : Nat) ^ f.p ≠ 0 := by have := Nat.two_pow_pos f.p; omega
+      simp only [h0, if_false, if_true, bitlen_two_pow]
+      have e1 : max (((f.p + 1 : Nat) : Int) + (exp + ((bitlen man - f.p : Nat) : Int)) - f.p) f.emin
+          = exp + ((bitlen man - f.p : Nat) : Int) + 1 := by push_cast; omega
+      rw [e1]
+      have hr : rne (2 ^ f.p) (exp + ((bitlen man - f.p : Nat) : Int)) (exp + ((bitlen man - f.p : Nat) : Int) + 1) = 2 ^ (f.p - 1) := by
+        unfold rne
+        have : ¬ (exp + ((bitlen man - f.p : Nat) : Int) + 1 ≤ exp + ((bitlen man - f.p : Nat) : Int)) := by omega
+        simp only [this, if_false]
+        have : (exp + ((bitlen man - f.p : Nat) : Int) + 1 - (exp + ((bitlen man - f.p : Nat) : Int))).toNat = 1 := by omega
+        rw [this]
+        have : 2 ^ f.p = 2 ^ (f.p - 1) * 2 ^ 1 := by rw [← Nat.pow_add]; congr 1; omega
+        rw [this, rneDiv_mul]
+      rw [hr]
+      have hne : (2 : Nat) ^ (f.p - 1) ≠ 2 ^ f.p := by
+        have : 2 ^ (f.p - 1) < 2 ^ f.p := Nat.pow_lt_pow_right (by omega) (by omega)
+        omega
+      simp only [hne, if_false]
+
+/-! ## two-step characterisation and its consequences -/
+
+theorem q1_inf {f : Fmt} (v : Valid f) {man : Nat} (hm : man ≠ 0) (exp : Int) (h : maxexp f < top f.p man exp) :
+    roundV f (q1 f.p man) (exp + ((bitlen man - f.p : Nat) : Int)) = .inf := by
+  have hp : 1 ≤ f.p := by have := v.p2; omega
+  obtain ⟨h1, h2, h3, h4, h5, h6⟩ := norm_facts false exp hm hp
+  rw [← h6 f, roundV_short f hp h2 h3]
+  rw [← h5, h4] at h
+  unfold maxexp at h
+  have : f.emaxUlp < max ((bitlen (normalize false man exp f.p .n).man : Int) + (normalize false man exp f.p .n).exp - f.p) f.emin := by
+    omega
+  simp only [this, if_true]
+
+theorem pack_inf (f : Fmt) : pack f .inf = f.infBits := rfl
+
+/-- **two-step characterisation** of `mpf2float` on finite non-zero values, default precision, nearest. -/
+theorem two_step'' {f : Fmt} (v : Valid f) (fl : PyVal) (s : Bool) {man : Nat} (hm : man ≠ 0) (exp : Int) :
+    mpf2float f fl (.fin s man exp) none .n =
+      if top f.p man exp < (if fl.truthy then minexp f else subexp f) then .bits (signBits f s)
+      else .bits (signBits f s + roundBits f (q1 f.p man) (exp + ((bitlen man - f.p : Nat) : Int))) := by
+  rw [two_step' v fl s hm exp]
+  by_cases hz : top f.p man exp < (if fl.truthy then minexp f else subexp f)
+  · simp only [hz, if_true]
+  · simp only [hz, if_false]
+    by_cases ho : maxexp f < top f.p man exp
+    · simp only [ho, if_true]
+      unfold roundBits
+      rw [q1_inf v hm exp ho, pack_inf]
+    · simp only [ho, if_false]
+      rfl
+
+theorem zexp_le_minexp {f : Fmt} (v : Valid f) (fl : PyVal) : (if fl.truthy then minexp f else subexp f) ≤ minexp f := by
+  have := v.p2
+  unfold minexp subexp
+  split <;> omega
+
+theorem ge_min_normal' {f : Fmt} (v : Valid f) (fl : PyVal) (s : Bool) {man : Nat} (hm : man ≠ 0) (exp : Int)
+    (h : minexp f ≤ (bitlen man : Int) + exp) :
+    mpf2float f fl (.fin s man exp) none .n = .bits (signBits f s + roundBits f man exp) := by
+  have hp : 1 ≤ f.p := by have := v.p2; omega
+  rw [two_step'' v fl s hm exp]
+  have := zexp_le_minexp v fl
+  have := (top_bounds (p := f.p) (man := man) hp exp).1
+  have hz : ¬ top f.p man exp < (if fl.truthy then minexp f else subexp f) := by omega
+  simp only [hz, if_false]
+  unfold roundBits
+  rw [round_two_step_eq v hm exp (Or.inr (by unfold minexp at h; omega))]
+
+theorem representable' {f : Fmt} (v : Valid f) (fl : PyVal) (hfl : fl.truthy = false) (s : Bool) {man : Nat} (hm : man ≠ 0)
+    (exp : Int) (hs : bitlen man ≤ f.p) (h : subexp f ≤ (bitlen man : Int) + exp) :
+    mpf2float f fl (.fin s man exp) none .n = .bits (signBits f s + roundBits f man exp) := by
+  rw [two_step'' v fl s hm exp, top_short exp hs]
+  simp only [hfl]
+  have hz : ¬ ((bitlen man : Int) + exp < subexp f) := by omega
+  simp only [hz, if_false, Bool.false_eq_true]
+  unfold roundBits
+  rw [round_two_step_eq v hm exp (Or.inl hs)]
+
+/-- the only place where a value below the smallest normal rounds (in the format) to a normal number -/
+theorem edge_nat {p n j man : Nat} (hp : 2 ≤ p) (hn : 1 ≤ n) (hj : 1 ≤ j) (hl : man < 2 ^ (p + n))
+    (h : 2 ^ (p - 1) ≤ rneDiv man (n + j)) :
+    j = 1 ∧ (rneDiv man n = 2 ^ p - 1 ∨ rneDiv man n = 2 ^ p) := by
+  have hj1 : j = 1 := by
+    by_contra hne
+    have : rneDiv man (n + j) ≤ 2 ^ (p - 2) := by
+      apply rneDiv_le_pow
+      have : 2 ^ (p + n) ≤ 2 ^ (p - 2 + (n + j)) := Nat.pow_le_pow_right (by omega) (by omega)
+      omega
+    have : 2 ^ (p - 2) < 2 ^ (p - 1) := Nat.pow_lt_pow_right (by omega) (by omega)
+    omega
+  refine ⟨hj1, ?_⟩
+  subst hj1
+  have hodd : (2 ^ (p - 1) - 1) % 2 = 1 := by
+    have : 2 ^ (p - 1) = 2 * 2 ^ (p - 2) := by
+      rw [show p - 1 = (p - 2) + 1 by omega, Nat.pow_succ]; ring
+    have := Nat.two_pow_pos (p - 2)
+    omega
+  have hpos := Nat.two_pow_pos (p - 1)
+  have h' : (2 ^ (p - 1) - 1) + 1 ≤ rneDiv man (n + 1) := by omega
+  rw [rneDiv_ge_succ_odd (by omega) hodd] at h'
+  have e1 : n + 1 - 1 = n := by omega
+  rw [e1] at h'
+  have hge : (2 ^ p - 1) * 2 ^ n ≤ man := by
+    have : (2 ^ (p - 1) - 1) * 2 ^ (n + 1) + 2 ^ n = (2 ^ p - 1) * 2 ^ n := by
+      have hp2 : 2 ^ p = 2 * 2 ^ (p - 1) := by
+        rw [show p = (p - 1) + 1 by omega, Nat.pow_succ]; simp; ring
+      rw [hp2, Nat.pow_succ]
+      have : 1 ≤ 2 ^ (p - 1) := hpos
+      obtain ⟨c, hc⟩ : ∃ c, 2 ^ (p - 1) = c + 1 := ⟨2 ^ (p - 1) - 1, by omega⟩
+      rw [hc]
+      simp only [Nat.add_sub_cancel]
+      have : 2 * (c + 1) - 1 = 2 * c + 1 := by omega
+      rw [this]; ring
+    omega
+  have lo : 2 ^ p - 1 ≤ rneDiv man n := by
+    have := rneDiv_mono n hge
+    rwa [rneDiv_mul] at this
+  have hi : rneDiv man n ≤ 2 ^ p := rneDiv_le_pow (by omega)
+  omega
+
+/-! ## normal results -/
+
+theorem pack_emin (f : Fmt) (q : Nat) : pack f (.fin q f.emin) = q := by
+  unfold pack; simp
+
+/-- below the top of the subnormal range the format's quantum is `emin` and nothing carries or overflows -/
+theorem roundV_low {f : Fmt} (v : Valid f) {man : Nat} (hm : man ≠ 0) {exp : Int}
+    (h : (bitlen man : Int) + exp ≤ f.emin + f.p - 1) :
+    roundV f man exp = .fin (rne man exp f.emin) f.emin ∧ rne man exp f.emin ≤ 2 ^ (f.p - 1) := by
+  obtain ⟨B, hB, b1, b2, b3, b4, b5⟩ := fmt_facts v
+  have hp := v.p2
+  have hle : rne man exp f.emin ≤ 2 ^ (f.p - 1) := rne_le (by push_cast; omega)
+  refine ⟨?_, hle⟩
+  have hlt : 2 ^ (f.p - 1) < 2 ^ f.p := Nat.pow_lt_pow_right (by omega) (by omega)
+  unfold roundV
+  simp only [hm, if_false]
+  have e : max ((bitlen man : Int) + exp - f.p) f.emin = f.emin := by omega
+  rw [e]
+  have hne : rne man exp f.emin ≠ 2 ^ f.p := by omega
+  have hov : ¬ f.emaxUlp < f.emin := by omega
+  simp only [hne, if_false, hov]
+
+theorem rneDiv_half_top {p : Nat} (hp : 2 ≤ p) : rneDiv (2 ^ p - 1) 1 = 2 ^ (p - 1) := by
+  have hpos := Nat.two_pow_pos (p - 2)
+  have h1 : 2 ^ (p - 1) = 2 * 2 ^ (p - 2) := by
+    rw [show p - 1 = (p - 2) + 1 by omega, Nat.pow_succ]; ring
+  have h2 : 2 ^ p = 2 * 2 ^ (p - 1) := by
+    rw [show p = (p - 1) + 1 by omega, Nat.pow_succ]; simp; ring
+  have hodd : (2 ^ (p - 1) - 1) % 2 = 1 := by omega
+  have lo : (2 ^ (p - 1) - 1) + 1 ≤ rneDiv (2 ^ p - 1) 1 := by
+    rw [rneDiv_ge_succ_odd (by omega) hodd]
+    simp only [Nat.sub_self, Nat.pow_zero, Nat.pow_one]
+    omega
+  have hi : rneDiv (2 ^ p - 1) 1 ≤ 2 ^ (p - 1) := by
+    apply rneDiv_le_pow
+    rw [show p - 1 + 1 = p by omega]; omega
+  omega
+
+theorem normal' {f : Fmt} (v : Valid f) (fl : PyVal) (hfl : fl.truthy = false) (s : Bool) {man : Nat} (hm : man ≠ 0)
+    (exp : Int) (hn : f.minNormalBits ≤ roundBits f man exp) :
+    mpf2float f fl (.fin s man exp) none .n = .bits (signBits f s + roundBits f man exp) := by
+  obtain ⟨B, hB, b1, b2, b3, b4, b5⟩ := fmt_facts v
+  have hp2 := v.p2
+  have hp : 1 ≤ f.p := by omega
+  have hmn : f.minNormalBits = 2 ^ (f.p - 1) := rfl
+  have h2 : 2 ≤ 2 ^ (f.p - 1) := by
+    have : 2 ^ 1 ≤ 2 ^ (f.p - 1) := Nat.pow_le_pow_right (by omega) (by omega)
+    simpa using this
+  rw [two_step'' v fl s hm exp]
+  simp only [hfl, Bool.false_eq_true, if_false]
+  have tb := top_bounds (p := f.p) (man := man) hp exp
+  by_cases hA : bitlen man ≤ f.p ∨ f.emin ≤ (bitlen man : Int) + exp - f.p
+  · -- the first rounding is harmless
+    have hz : ¬ top f.p man exp < subexp f := by
+      unfold subexp
+      rcases hA with hs | hb
+      · rw [top_short exp hs]
+        intro hlt
+        obtain ⟨r1, r2⟩ := roundV_low v hm (show (bitlen man : Int) + exp ≤ f.emin + f.p - 1 by omega)
+        have : rne man exp f.emin ≤ 2 ^ 0 := rne_le (by push_cast; omega)
+        unfold roundBits at hn
+        rw [r1, pack_emin, hmn] at hn
+        simp at this
+        omega
+      · omega
+    simp only [hz, if_false]
+    unfold roundBits
+    rw [round_two_step_eq v hm exp hA]
+  · -- the edge: x is below the smallest normal, has more than p bits, and rounds to the smallest normal
+    have hl : f.p < bitlen man := by omega
+    have hb : (bitlen man : Int) + exp - f.p < f.emin := by omega
+    obtain ⟨r1, r2⟩ := roundV_low v hm (show (bitlen man : Int) + exp ≤ f.emin + f.p - 1 by omega)
+    have hrb : roundBits f man exp = rne man exp f.emin := by unfold roundBits; rw [r1, pack_emin]
+    rw [hrb, hmn] at hn
+    have hrne : rne man exp f.emin = rneDiv man ((bitlen man - f.p) + (f.emin - (exp + ((bitlen man - f.p : Nat) : Int))).toNat) := by
+      unfold rne
+      have : ¬ f.emin ≤ exp := by omega
+      simp only [this, if_false]
+      congr 1; omega
+    rw [hrne] at hn
+    have hlt : man < 2 ^ (f.p + (bitlen man - f.p)) := by
+      rw [show f.p + (bitlen man - f.p) = bitlen man by omega]
+      exact lt_of_bitlen_le (Nat.le_refl _)
+    obtain ⟨j1, hq⟩ := edge_nat hp2 (show 1 ≤ bitlen man - f.p by omega)
+      (show 1 ≤ (f.emin - (exp + ((bitlen man - f.p : Nat) : Int))).toNat by omega) hlt hn
+    have he1 : exp + ((bitlen man - f.p : Nat) : Int) = f.emin - 1 := by omega
+    have hz : ¬ top f.p man exp < subexp f := by unfold subexp; omega
+    simp only [hz, if_false]
+    -- both sides are the smallest normal
+    have hR : rne man exp f.emin = 2 ^ (f.p - 1) := by rw [hrne]; omega
+    rw [hrb, hR, he1]
+    have hq' : q1 f.p man = 2 ^ f.p - 1 ∨ q1 f.p man = 2 ^ f.p := hq
+    have hpow : 2 ^ f.p = 2 * 2 ^ (f.p - 1) := by
+      rw [show f.p = (f.p - 1) + 1 by omega, Nat.pow_succ]; simp; ring
+    have goal : roundBits f (q1 f.p man) (f.emin - 1) = 2 ^ (f.p - 1) := by
+      rcases hq' with e | e
+      · rw [e]
+        have hne : 2 ^ f.p - 1 ≠ 0 := by omega
+        have hbl : bitlen (2 ^ f.p - 1) = (f.p - 1) + 1 := bitlen_eq_of (by omega) (by rw [show f.p - 1 + 1 = f.p by omega]; omega)
+        obtain ⟨s1, s2⟩ := roundV_low v hne (exp := f.emin - 1) (by rw [hbl]; push_cast; omega)
+        unfold roundBits
+        rw [s1, pack_emin]
+        unfold rne
+        have : ¬ f.emin ≤ f.emin - 1 := by omega
+        simp only [this, if_false]
+        rw [show (f.emin - (f.emin - 1)).toNat = 1 by omega]
+        exact rneDiv_half_top hp2
+      · rw [e]
+        unfold roundBits roundV
+        have h0 : (2 : Nat) ^ f.p ≠ 0 := by omega
+        simp only [h0, if_false, bitlen_two_pow]
+        have e1 : max (((f.p + 1 : Nat) : Int) + (f.emin - 1) - f.p) f.emin = f.emin := by push_cast; omega
+        rw [e1]
+        have hr : rne (2 ^ f.p) (f.emin - 1) f.emin = 2 ^ (f.p - 1) := by
+          unfold rne
+          have : ¬ f.emin ≤ f.emin - 1 := by omega
+          simp only [this, if_false]
+          rw [show (f.emin - (f.emin - 1)).toNat = 1 by omega]
+          have : 2 ^ f.p = 2 ^ (f.p - 1) * 2 ^ 1 := by rw [← Nat.pow_add]; congr 1; omega
+          rw [this, rneDiv_mul]
+        rw [hr]
+        have hne : (2 : Nat) ^ (f.p - 1) ≠ 2 ^ f.p := by omega
+        have hov : ¬ f.emaxUlp < f.emin := by omega
+        simp only [hne, if_false, hov]
+        exact pack_emin f _
+    rw [goal]
+
+/-! ## thresholds on exact dyadic values -/
+
+/-- `m1·2^e1 ≤ m2·2^e2` on exact dyadic values (both sides scaled to the smaller exponent:
+one of the two shifts is zero). -/
+def dyLe (m1 : Nat) (e1 : Int) (m2 : Nat) (e2 : Int) : Prop :=
+  m1 * 2 ^ (e1 - e2).toNat ≤ m2 * 2 ^ (e2 - e1).toNat
+
+/-- `m1·2^e1 < m2·2^e2` on exact dyadic values. -/
+def dyLt (m1 : Nat) (e1 : Int) (m2 : Nat) (e2 : Int) : Prop :=
+  m1 * 2 ^ (e1 - e2).toNat < m2 * 2 ^ (e2 - e1).toNat
+
+instance (m1 : Nat) (e1 : Int) (m2 : Nat) (e2 : Int) : Decidable (dyLe m1 e1 m2 e2) := by unfold dyLe; infer_instance
+instance (m1 : Nat) (e1 : Int) (m2 : Nat) (e2 : Int) : Decidable (dyLt m1 e1 m2 e2) := by unfold dyLt; infer_instance
+
+theorem dyLt_iff_not_dyLe (m1 : Nat) (e1 : Int) (m2 : Nat) (e2 : Int) : dyLt m1 e1 m2 e2 ↔ ¬ dyLe m2 e2 m1 e1 := by
+  unfold dyLt dyLe; omega
+
+private theorem pw {a b : Nat} (h : a ≤ b) : 2 ^ a ≤ 2 ^ b := Nat.pow_le_pow_right (by omega) h
+
+/-- the p-bit rounding of `x = man·2^exp` reaches `2^K` exactly when `x ≥ (2^(p+1) - 1)·2^(K-p-1)`
+(the midpoint between the largest p-bit number below `2^K` and `2^K`; the tie goes up, to the even `2^K`). -/
+theorem top_gt_iff {p man : Nat} (hp : 1 ≤ p) (hm : man ≠ 0) (exp K : Int) :
+    K < top p man exp ↔ dyLe (2 ^ (p + 1) - 1) (K - p - 1) man exp := by
+  obtain ⟨b1, b2, b3⟩ := bitlen_bounds hm
+  have tb := top_bounds (p := p) (man := man) hp exp
+  have hP : 2 ^ (p + 1) = 2 * 2 ^ p := by rw [Nat.pow_succ]; ring
+  have hPpos := Nat.two_pow_pos p
+  unfold dyLe
+  by_cases hab : K - p - 1 ≤ exp
+  · -- threshold exponent below exp: compare (2^(p+1)-1) with man * 2^a
+    obtain ⟨a, ha⟩ : ∃ a : Nat, exp = K - p - 1 + a := ⟨(exp - (K - p - 1)).toNat, by omega⟩
+    have h1 : (K - p - 1 - exp).toNat = 0 := by omega
+    have h2 : (exp - (K - p - 1)).toNat = a := by omega
+    rw [h1, h2]
+    simp only [Nat.pow_zero, Nat.mul_one]
+    rcases Int.lt_trichotomy ((bitlen man : Int) + exp) K with lt | eq | gt
+    · have : ¬ K < top p man exp := by omega
+      simp only [this, false_iff]
+      have : man * 2 ^ a < 2 ^ bitlen man * 2 ^ a := Nat.mul_lt_mul_of_pos_right b2 (Nat.two_pow_pos a)
+      rw [← Nat.pow_add] at this
+      have : 2 ^ (bitlen man + a) ≤ 2 ^ p := pw (by omega)
+      omega
+    · by_cases hs : bitlen man ≤ p
+      · rw [top_short exp hs]
+        have : ¬ K < (bitlen man : Int) + exp := by omega
+        simp only [this, false_iff]
+        have ha' : a = p + 1 - bitlen man := by omega
+        have h3 : man * 2 ^ a ≤ (2 ^ bitlen man - 1) * 2 ^ a := Nat.mul_le_mul_right _ (by omega)
+        have h4 : (2 ^ bitlen man - 1) * 2 ^ a = 2 ^ (p + 1) - 2 ^ a := by
+          rw [Nat.sub_mul, ← Nat.pow_add, Nat.one_mul]
+          congr 2; omega
+        have h5 : 2 ^ 1 ≤ 2 ^ a := pw (by omega)
+        simp only [Nat.pow_one] at h5
+        have h6 : 2 ^ a ≤ 2 ^ (p + 1) := pw (by omega)
+        omega
+      · -- long: a = 0, n = 1
+        have hl : p < bitlen man := by omega
+        obtain ⟨t1, t2⟩ := top_long hp exp hl
+        obtain ⟨l1, l2⟩ := q1_long hp hl
+        have ha0 : a = 0 := by omega
+        have hn : bitlen man - p = 1 := by omega
+        subst ha0
+        simp only [Nat.pow_zero, Nat.mul_one]
+        have hodd : (2 ^ p - 1) % 2 = 1 := by
+          have : 2 ^ p = 2 * 2 ^ (p - 1) := by rw [show p = (p - 1) + 1 by omega, Nat.pow_succ]; simp; ring
+          have := Nat.two_pow_pos (p - 1)
+          omega
+        have key : (2 ^ p - 1) + 1 ≤ q1 p man ↔ (2 ^ p - 1) * 2 ^ 1 + 2 ^ (1 - 1) ≤ man := by
+          unfold q1; rw [hn]; exact rneDiv_ge_succ_odd (by omega) hodd
+        simp only [Nat.pow_one, Nat.sub_self, Nat.pow_zero] at key
+        constructor
+        · intro h
+          have : q1 p man = 2 ^ p := by
+            by_contra hne
+            have := t1 (by omega)
+            omega
+          have := key.1 (by omega)
+          omega
+        · intro h
+          have := key.2 (by omega)
+          have := t2 (by omega)
+          omega
+    · have : K < top p man exp := by omega
+      simp only [this, true_iff]
+      have h3 : 2 ^ (bitlen man - 1) * 2 ^ a ≤ man * 2 ^ a := Nat.mul_le_mul_right _ b1
+      rw [← Nat.pow_add] at h3
+      have : 2 ^ (p + 1) ≤ 2 ^ (bitlen man - 1 + a) := pw (by omega)
+      omega
+  · -- threshold exponent above exp: compare (2^(p+1)-1) * 2^b with man
+    obtain ⟨b, hb⟩ : ∃ b : Nat, K - p - 1 = exp + b ∧ 1 ≤ b := ⟨(K - p - 1 - exp).toNat, by omega, by omega⟩
+    have h1 : (K - p - 1 - exp).toNat = b := by omega
+    have h2 : (exp - (K - p - 1)).toNat = 0 := by omega
+    rw [h1, h2]
+    simp only [Nat.pow_zero, Nat.mul_one]
+    have hbpos := Nat.two_pow_pos b
+    have hmul : (2 ^ (p + 1) - 1) * 2 ^ b = 2 ^ (p + 1 + b) - 2 ^ b := by
+      rw [Nat.sub_mul, ← Nat.pow_add, Nat.one_mul]
+    rcases Int.lt_trichotomy ((bitlen man : Int) + exp) K with lt | eq | gt
+    · have : ¬ K < top p man exp := by omega
+      simp only [this, false_iff]
+      have h3 : 2 ^ bitlen man ≤ 2 ^ (p + b) := pw (by omega)
+      have h4 : 2 ^ (p + 1 + b) = 2 * 2 ^ (p + b) := by rw [show p + 1 + b = (p + b) + 1 by omega, Nat.pow_succ]; ring
+      have h5 : 2 ^ b ≤ 2 ^ (p + b) := pw (by omega)
+      omega
+    · have hl : p < bitlen man := by omega
+      obtain ⟨t1, t2⟩ := top_long hp exp hl
+      obtain ⟨l1, l2⟩ := q1_long hp hl
+      have hn : bitlen man - p = b + 1 := by omega
+      have hodd : (2 ^ p - 1) % 2 = 1 := by
+        have : 2 ^ p = 2 * 2 ^ (p - 1) := by rw [show p = (p - 1) + 1 by omega, Nat.pow_succ]; simp; ring
+        have := Nat.two_pow_pos (p - 1)
+        omega
+      have key : (2 ^ p - 1) + 1 ≤ q1 p man ↔ (2 ^ p - 1) * 2 ^ (b + 1) + 2 ^ (b + 1 - 1) ≤ man := by
+        unfold q1; rw [hn]; exact rneDiv_ge_succ_odd (by omega) hodd
+      have hk : (2 ^ p - 1) * 2 ^ (b + 1) + 2 ^ (b + 1 - 1) = (2 ^ (p + 1) - 1) * 2 ^ b := by
+        rw [hmul, Nat.sub_mul, ← Nat.pow_add, Nat.one_mul, show b + 1 - 1 = b by omega,
+          show p + (b + 1) = p + 1 + b by omega]
+        have h5 : 2 ^ (b + 1) = 2 * 2 ^ b := by rw [Nat.pow_succ]; ring
+        have h6 : 2 ^ (b + 1) ≤ 2 ^ (p + 1 + b) := pw (by omega)
+        omega
+      rw [hk] at key
+      constructor
+      · intro h
+        have : q1 p man = 2 ^ p := by
+          by_contra hne
+          have := t1 (by omega)
+          omega
+        exact key.1 (by omega)
+      · intro h
+        have := key.2 h
+        have := t2 (by omega)
+        omega
+    · have : K < top p man exp := by omega
+      simp only [this, true_iff]
+      have h3 : 2 ^ (p + 1 + b) ≤ 2 ^ (bitlen man - 1) := pw (by omega)
+      omega
+
+/-! ## overflow, tiny, flush, zero threshold, dead loops -/
+
+theorem dyLt_one_iff {man : Nat} (hm : man ≠ 0) (exp K : Int) : dyLt man exp 1 K ↔ (bitlen man : Int) + exp ≤ K := by
+  obtain ⟨b1, b2, b3⟩ := bitlen_bounds hm
+  unfold dyLt
+  by_cases h : K ≤ exp
+  · have h1 : (K - exp).toNat = 0 := by omega
+    rw [h1]
+    have := Nat.two_pow_pos (exp - K).toNat
+    have : 1 ≤ man * 2 ^ (exp - K).toNat := Nat.mul_pos (by omega) this
+    simp only [Nat.pow_zero, Nat.mul_one]
+    omega
+  · have h1 : (exp - K).toNat = 0 := by omega
+    rw [h1]
+    simp only [Nat.pow_zero, Nat.mul_one, Nat.one_mul]
+    constructor
+    · intro hlt
+      have := bitlen_le_of_lt hlt
+      omega
+    · intro hle
+      exact lt_of_bitlen_le (by omega)
+
+theorem overflow' {f : Fmt} (v : Valid f) (fl : PyVal) (s : Bool) {man : Nat} (hm : man ≠ 0) (exp : Int)
+    (h : dyLe (2 ^ (f.p + 1) - 1) (f.emaxUlp - 1) man exp) :
+    mpf2float f fl (.fin s man exp) none .n = .bits (signBits f s + f.infBits) := by
+  obtain ⟨B, hB, b1, b2, b3, b4, b5⟩ := fmt_facts v
+  have hp : 1 ≤ f.p := by have := v.p2; omega
+  have ht : maxexp f < top f.p man exp := by
+    rw [top_gt_iff hp hm]
+    have : maxexp f - f.p - 1 = f.emaxUlp - 1 := by unfold maxexp; omega
+    rw [this]; exact h
+  have hz := zexp_le_minexp v fl
+  have : minexp f ≤ maxexp f := by unfold minexp maxexp; omega
+  rw [two_step' v fl s hm exp]
+  have h1 : ¬ top f.p man exp < (if fl.truthy then minexp f else subexp f) := by omega
+  simp only [h1, ht, if_true, if_false]
+
+theorem tiny' {f : Fmt} (v : Valid f) (fl : PyVal) (s : Bool) {man : Nat} (hm : man ≠ 0) (exp : Int)
+    (h : dyLt man exp 1 (f.emin - 1)) :
+    mpf2float f fl (.fin s man exp) none .n = .bits (signBits f s) := by
+  have hp2 := v.p2
+  have hp : 1 ≤ f.p := by omega
+  rw [dyLt_one_iff hm] at h
+  have tb := top_bounds (p := f.p) (man := man) hp exp
+  rw [two_step'' v fl s hm exp]
+  have : top f.p man exp < (if fl.truthy then minexp f else subexp f) := by
+    unfold minexp subexp; split <;> omega
+  simp only [this, if_true]
+
+theorem flush_eq' {f : Fmt} (v : Valid f) (fl : PyVal) (hfl : fl.truthy = true) (s : Bool) {man : Nat} (hm : man ≠ 0) (exp : Int) :
+    mpf2float f fl (.fin s man exp) none .n =
+      if top f.p man exp < minexp f then .bits (signBits f s) else mpf2float f .false (.fin s man exp) none .n := by
+  have hp2 := v.p2
+  rw [two_step'' v fl s hm exp, two_step'' v .false s hm exp]
+  have hF : PyVal.false.truthy = false := rfl
+  simp only [hfl, if_true, hF, Bool.false_eq_true, if_false]
+  by_cases h : top f.p man exp < minexp f
+  · simp only [h, if_true]
+  · have : ¬ top f.p man exp < subexp f := by unfold minexp subexp at *; omega
+    simp only [h, this, if_false]
+
+theorem flush_iff {f : Fmt} (v : Valid f) {man : Nat} (hm : man ≠ 0) (exp : Int) :
+    top f.p man exp < minexp f ↔ dyLt man exp (2 ^ (f.p + 1) - 1) (f.emin - 2) := by
+  have hp : 1 ≤ f.p := by have := v.p2; omega
+  rw [dyLt_iff_not_dyLe]
+  have := top_gt_iff hp hm exp (minexp f - 1)
+  have e : minexp f - 1 - f.p - 1 = f.emin - 2 := by unfold minexp; omega
+  rw [e] at this
+  rw [← this]; omega
+
+theorem zero_iff_top {f : Fmt} (v : Valid f) {man : Nat} (hm : man ≠ 0) (exp : Int) :
+    top f.p man exp < subexp f ↔ dyLt man exp (2 ^ (f.p + 1) - 1) (f.emin - f.p - 1) := by
+  have hp : 1 ≤ f.p := by have := v.p2; omega
+  rw [dyLt_iff_not_dyLe]
+  have := top_gt_iff hp hm exp f.emin
+  rw [← this]; unfold subexp; omega
+
+theorem pack_ge (f : Fmt) (q : Nat) (e : Int) : q ≤ pack f (.fin q e) := by
+  show q ≤ (e - f.emin).toNat * 2 ^ f.fracBits + q
+  omega
+
+theorem roundBits_q1_pos {f : Fmt} (v : Valid f) {man : Nat} (hm : man ≠ 0) (exp : Int)
+    (h : subexp f ≤ top f.p man exp) : 1 ≤ roundBits f (q1 f.p man) (exp + ((bitlen man - f.p : Nat) : Int)) := by
+  obtain ⟨B, hB, b1, b2, b3, b4, b5⟩ := fmt_facts v
+  have hp : 1 ≤ f.p := by have := v.p2; omega
+  obtain ⟨h1, h2, h3, h4, h5, h6⟩ := norm_facts false exp hm hp
+  unfold roundBits
+  rw [← h6 f, roundV_short f hp h2 h3]
+  rw [← h5, h4] at h
+  generalize normalize false man exp f.p .n = r at *
+  split
+  · rw [pack_inf]
+    unfold Fmt.infBits
+    have := Nat.two_pow_pos f.fracBits
+    have : 1 ≤ f.expMax := by omega
+    exact Nat.mul_pos this (by omega)
+  · have hq : 2 ^ 0 ≤ rne r.man r.exp (max ((bitlen r.man : Int) + r.exp - f.p) f.emin) := by
+      by_cases hc : (bitlen r.man : Int) + r.exp - f.p ≤ f.emin
+      · rw [show max ((bitlen r.man : Int) + r.exp - f.p) f.emin = f.emin by omega]
+        apply rne_ge h2
+        unfold subexp at h; push_cast; omega
+      · rw [show max ((bitlen r.man : Int) + r.exp - f.p) f.emin = (bitlen r.man : Int) + r.exp - f.p by omega]
+        have : 2 ^ 0 ≤ 2 ^ (f.p - 1) := Nat.pow_le_pow_right (by omega) (by omega)
+        have := rne_ge (man := r.man) (exp := r.exp) (e := (bitlen r.man : Int) + r.exp - f.p) (j := f.p - 1) h2 (by omega)
+        omega
+    have := pack_ge f (rne r.man r.exp (max ((bitlen r.man : Int) + r.exp - f.p) f.emin)) (max ((bitlen r.man : Int) + r.exp - f.p) f.emin)
+    simp only [Nat.pow_zero] at hq
+    omega
+
+theorem zero_iff' {f : Fmt} (v : Valid f) (fl : PyVal) (hfl : fl.truthy = false) (s : Bool) {man : Nat} (hm : man ≠ 0) (exp : Int) :
+    mpf2float f fl (.fin s man exp) none .n = .bits (signBits f s) ↔ dyLt man exp (2 ^ (f.p + 1) - 1) (f.emin - f.p - 1) := by
+  rw [← zero_iff_top v hm, two_step'' v fl s hm exp]
+  simp only [hfl, Bool.false_eq_true, if_false]
+  constructor
+  · intro h
+    by_contra hn
+    simp only [hn, if_false] at h
+    have := roundBits_q1_pos v hm exp (by omega)
+    injection h with h
+    omega
+  · intro h
+    simp only [h, if_true]
+
+theorem loop_dead' {f : Fmt} (v : Valid f) (s : Bool) {man : Nat} (hm : man ≠ 0) (exp : Int) :
+    shiftLoop (largest f) (normalize s man exp f.p .n).man (normalize s man exp f.p .n).exp
+        = ((normalize s man exp f.p .n).man, (normalize s man exp f.p .n).exp) ∧
+    convInt f (normalize s man exp f.p .n).man = some (.fin (normalize s man exp f.p .n).man 0) ∧
+    ((normalize s man exp f.p .n).exp + ((normalize s man exp f.p .n).bc : Int) ≤ maxexp f →
+      ldexpV f (.fin (normalize s man exp f.p .n).man 0) (normalize s man exp f.p .n).exp ≠ .inf) := by
+  have hp : 1 ≤ f.p := by have := v.p2; omega
+  obtain ⟨h1, h2, h3, h4, h5, h6⟩ := norm_facts s exp hm hp
+  obtain ⟨B, hB, b1, b2, b3, b4, b5⟩ := fmt_facts v
+  generalize normalize s man exp f.p .n = r at *
+  have hlt := lt_of_bitlen_le h3
+  have hle : r.man ≤ largest f := by have := @largest_ge f; omega
+  refine ⟨shiftLoop_le _ hle, ?_, ?_⟩
+  · unfold convInt
+    have : bitlen r.man ≤ 53 := by have := v.p53; omega
+    simp only [h3, this, hle, and_self, if_true]
+  · intro ho
+    simp only [ldexpV, Int.zero_add]
+    rw [roundV_short f hp h2 h3]
+    have hmax : ¬ f.emaxUlp < max ((bitlen r.man : Int) + r.exp - f.p) f.emin := by
+      unfold maxexp at ho
+      rw [h4] at ho
+      omega
+    simp only [hmax, if_false]
+    intro hc; cases hc
+
+/-! the three formats are valid -/
+theorem valid16 : Valid binary16 := ⟨by decide, by decide, by decide, by decide⟩
+theorem valid32 : Valid binary32 := ⟨by decide, by decide, by decide, by decide⟩
+theorem valid64 : Valid binary64 := ⟨by decide, by decide, by decide, by decide⟩
+
 end FAVerif.Mpf
